@@ -83,8 +83,7 @@ KeyLenScenario(role, which, len, dh) ==
 PskLocs == {0, 4, 9, 10, 11, 255, 256, 70000}
 PskLens == {0, 1, 31, 32, 33, 64}
 SetPskScenario(loc, len) ==
-  LET pp == PP("NNpsk0x", {}, 32, FALSE)
-      ppn == PP("NN", {0}, 32, FALSE)
+  LET ppn == PP("NN", {0}, 32, FALSE)
       cfg == CfgB("i", FALSE, FALSE, {})
       st == Initialize("I", "i", ppn, cfg)
       nm == NameOf("NN", <<"psk0">>, "25519", "ChaChaPoly", "SHA256")
